@@ -130,6 +130,10 @@ func VerifC19Stream() {
 		sb.steps = append(sb.steps, st)
 	}
 	req.Body = sb
+	if vf.Choice("empty-body-is-http-nobody", 2) == 1 {
+		// what net/http hands out for a message without a body: it reports end-of-file at once
+		req.Body = http.NoBody
+	}
 	vf.Assert(s.LogRequest(id, req) == nil, "log-request")
 	var consumed []byte
 	early := vf.Choice("stop-early", 2) == 1
